@@ -332,9 +332,15 @@ func execPlanFresh(workdir string, plan []byte, prop string) (*RunResult, error)
 	if freshGOMAXPROCS > 0 {
 		gmp = freshGOMAXPROCS
 	}
-	so, se, code := execSelf(120*time.Second, append(workerEnvBase(cfg), fmt.Sprintf("GOMAXPROCS=%d", gmp)), "exec-plan", "-prop", prop, "-plan", f.Name())
+	outFile := f.Name() + ".result"
+	defer os.Remove(outFile)
+	_, se, code := execSelf(120*time.Second, append(workerEnvBase(cfg), fmt.Sprintf("GOMAXPROCS=%d", gmp)), "exec-plan", "-prop", prop, "-plan", f.Name(), "-out", outFile)
 	if code != 0 {
 		return nil, fmt.Errorf("exec-plan exit %d: %s", code, tail(se, 600))
+	}
+	so, err := os.ReadFile(outFile)
+	if err != nil {
+		return nil, fmt.Errorf("exec-plan result: %v", err)
 	}
 	var rr RunResult
 	if err := json.Unmarshal(so, &rr); err != nil {
@@ -804,7 +810,7 @@ func confirmWithPrefix(cfg driveCfg, eng *Engine, v Violation) (Violation, bool,
 	freshGOMAXPROCS = v.GOMAXPROCS
 	defer func() { freshGOMAXPROCS = 0 }()
 	check := func(pre []json.RawMessage) *Violation {
-		for a := 0; a < 3; a++ {
+		for a := 0; a < 4; a++ {
 			rr, err := execSeqFresh(cfg.workdir, pre, v.Plan, cfg.prop)
 			if err == nil {
 				if got := sameClass(rr, v); got != nil {
@@ -820,8 +826,8 @@ func confirmWithPrefix(cfg driveCfg, eng *Engine, v Violation) (Violation, bool,
 	}
 	full := len(prefix)
 	budget := 40
-	// ddmin over the prefix
-	for n := 2; len(prefix) > 0 && budget > 0; {
+	// ddmin over the prefix (within the minimisation budget of this run)
+	for n := 2; len(prefix) > 0 && budget > 0 && time.Now().Before(minimiseDeadline); {
 		chunk := (len(prefix) + n - 1) / n
 		reduced := false
 		for st := 0; st < len(prefix) && budget > 0; st += chunk {
@@ -964,6 +970,9 @@ func selfTest(cfg driveCfg, n int) (st SelfTest) {
 		}
 		return st
 	}
+	for i := range outs {
+		outs[i] = digestLines(outs[i])
+	}
 	ref := strings.Split(string(outs[0]), "\n")
 	defer func() {
 		if st.Mismatches == 0 {
@@ -1018,7 +1027,7 @@ func isolatedTest(cfg driveCfg, n int, ref []string, st *SelfTest) {
 				"digest", "-prop", cfg.prop, "-tier", cfg.tier, "-seed", strconv.FormatUint(seed, 10), "-from", strconv.Itoa(idx), "-n", strconv.Itoa(idx+1))
 			if code == 0 {
 				mu.Lock()
-				got = append(got, res{idx, strings.TrimSpace(string(so))})
+				got = append(got, res{idx, strings.TrimSpace(string(digestLines(so)))})
 				mu.Unlock()
 			}
 		}(idx)
@@ -1047,6 +1056,17 @@ func isolatedTest(cfg driveCfg, n int, ref []string, st *SelfTest) {
 	}
 }
 
+// digestLines keeps only the digest lines of a digest process (a library under test may print to stdout).
+func digestLines(b []byte) []byte {
+	var out []string
+	for _, l := range strings.Split(string(b), "\n") {
+		if strings.HasPrefix(l, "DIGEST ") {
+			out = append(out, strings.TrimPrefix(l, "DIGEST "))
+		}
+	}
+	return []byte(strings.Join(out, "\n"))
+}
+
 func runDigest(prop, tier string, seed uint64, from, n int) int {
 	eng := engines[prop]
 	for idx := from; idx < n; idx++ {
@@ -1065,7 +1085,7 @@ func runDigest(prop, tier string, seed uint64, from, n int) int {
 			}
 			vs = append(vs, v.Oracle)
 		}
-		fmt.Printf("%d %s %s evals=%d nt=%d viol=%v\n", idx, res.PlanDigest, res.Digest, res.Evals, res.Nontrivial, vs)
+		fmt.Printf("\nDIGEST %d %s %s evals=%d nt=%d viol=%v\n", idx, res.PlanDigest, res.Digest, res.Evals, res.Nontrivial, vs)
 	}
 	return 0
 }
